@@ -202,10 +202,10 @@ def _lint_file_worker(args: tuple[Path, Path, dict]) -> list[dict]:
         violations = orchestrator.lint_file(file_path)
         # Convert to dicts for pickling
         return [v.to_dict() for v in violations]
-    except ValueError:
-        # Configuration validation errors are user-facing, as in the sequential path
-        raise
-    except Exception:
+    except Exception as error:
+        if isinstance(error, ValueError) and not isinstance(error, UnicodeError):
+            # Configuration validation errors are user-facing, as in the sequential path
+            raise
         _verif_tap("_lint_file_worker", None, file_path)
         logger.exception("Worker error processing file: %s", file_path)
         return []
@@ -444,10 +444,12 @@ class Orchestrator:  # thailint: ignore[srp]
         """Safely check a rule, returning empty list on error."""
         try:
             return rule.check(context)
-        except ValueError:
-            # Re-raise configuration validation errors (these are user-facing)
-            raise
-        except Exception:
+        except Exception as error:
+            if isinstance(error, ValueError) and not isinstance(error, UnicodeError):
+                # Re-raise configuration validation errors (these are user-facing). A
+                # UnicodeError is a ValueError too, but never a configuration error: a file
+                # name or string literal that cannot be encoded fails this rule, this file only
+                raise
             _verif_tap("_safe_check_rule", rule.rule_id, context.file_path)
             logger.exception("Rule %s failed on %s", rule.rule_id, context.file_path)
             return []
